@@ -1515,6 +1515,169 @@ theorem front_cycle_iff (cfg : Cfg) (fs : FS) (builtins : Registry) (root : APat
     exact hgood.2 _ hp
   · exact nodup_of_map_nodup _ _ hgood.1
 
+/-! ### link to `Front/Order.lean`: the visits are the registration events of `loadOrder`, with more detail
+
+`Props/C16Order.lean` proves that the model registers in the order of `loadOrder` / `rootEvents`. The search of
+`Front/SpecProgram.lean` is the same search (it also records spellings, importers and files that are not IDL text):
+forgetting the extra detail gives `rootEvents`, and the IDL files visited are `rootOrder` — the finish order the
+specification `violationsOrdered` reads a program in. -/
+
+theorem visitStep_mono (cfg : Cfg) (fs : FS) (rec : List APath → APath → APath → VisitAcc → VisitAcc)
+    (hrec : ∀ st p s a, ∀ q ∈ a.1, q ∈ (rec st p s a).1) (stack : List APath) (spelled : APath) (acc : VisitAcc)
+    (l : LoadAt) : ∀ q ∈ acc.1, q ∈ (visitStep cfg fs rec stack spelled acc l).1 := by
+  intro q hq
+  unfold visitStep
+  split
+  · exact hq
+  · split
+    · exact hq
+    · split
+      · split
+        · exact hq
+        · exact hrec _ _ _ _ q (by simp [hq])
+      · split
+        · exact hq
+        · exact hq
+
+theorem foldl_visitStep_mono (cfg : Cfg) (fs : FS) (rec : List APath → APath → APath → VisitAcc → VisitAcc)
+    (hrec : ∀ st p s a, ∀ q ∈ a.1, q ∈ (rec st p s a).1) (stack : List APath) (spelled : APath) (loads : List LoadAt)
+    (acc : VisitAcc) : ∀ q ∈ acc.1, q ∈ (loads.foldl (visitStep cfg fs rec stack spelled) acc).1 := by
+  induction loads generalizing acc with
+  | nil => exact fun q hq => hq
+  | cons l ls ih =>
+    intro q hq
+    simp only [List.foldl_cons]
+    exact ih _ q (visitStep_mono cfg fs rec hrec stack spelled acc l q hq)
+
+theorem visitOrder_mono (cfg : Cfg) (fs : FS) (fuel : Nat) (stack : List APath) (file spelled : APath) (acc : VisitAcc) :
+    ∀ q ∈ acc.1, q ∈ (visitOrder cfg fs fuel stack file spelled acc).1 := by
+  induction fuel generalizing stack file spelled acc with
+  | zero => exact fun q hq => hq
+  | succ n ih =>
+    intro q hq
+    simp only [visitOrder]
+    cases hf : fs.get file with
+    | none => exact hq
+    | some fc =>
+      cases fc with
+      | idl text =>
+        simp only []
+        cases hp : parseText text with
+        | none => exact hq
+        | some f => exact foldl_visitStep_mono cfg fs _ (fun st p s a => ih st p s a) _ spelled f.loads acc q hq
+      | ext d => exact hq
+      | badExt => exact hq
+      | notText pos => exact hq
+
+/-- a visit as a registration event of `Front/Order.lean` -/
+def visitEvent : Visit → Option LoadEvent
+  | .file f _ _ _ _ => some (.finished f)
+  | .extern p _ => some (.extern p)
+  | _ => none
+
+def projV (acc : VisitAcc) : OrderAcc := (acc.1, acc.2.filterMap visitEvent)
+
+theorem projV_step (cfg : Cfg) (fs : FS) (recV : List APath → APath → APath → VisitAcc → VisitAcc)
+    (recL : APath → APath → OrderAcc → OrderAcc) (stack : List APath) (file spelled : APath) (text : String)
+    (hfile : fs.get file = some (.idl text)) (hself : SelfOk fs spelled file)
+    (hrec : ∀ p s a, SelfOk fs s p → p ∈ a.1 → projV (recV stack p s a) = recL p s (projV a))
+    (acc : VisitAcc) (hin : file ∈ acc.1) (l : LoadAt) :
+    projV (visitStep cfg fs recV stack spelled acc l) = loadStep cfg fs recL spelled (projV acc) l := by
+  unfold visitStep loadStep
+  cases hfind : findFile cfg fs spelled (filepathText l.lit) with
+  | none => rfl
+  | some cp =>
+    obtain ⟨c, p⟩ := cp
+    simp only []
+    cases hs : refersToSelf c spelled with
+    | true =>
+      have hp : p = file := by
+        have hs' : (c.spelledAbsolute && c.path == spelled) = true := hs
+        simp only [Bool.and_eq_true, beq_iff_eq] at hs'
+        obtain ⟨_, _, _, _, hq⟩ := findFile_first cfg fs spelled _ c p hfind
+        rw [hs'.2] at hq
+        exact hself p hq
+      subst hp
+      cases himp : l.isImport with
+      | true => simp [projV, hin]
+      | false => simp [hfile]
+    | false =>
+      cases himp : l.isImport with
+      | true =>
+        by_cases hm : p ∈ acc.1
+        · simp [projV, hm]
+        · have := hrec p c.path (acc.1 ++ [p], acc.2) (SelfOk.found cfg fs spelled _ c p hfind) (by simp)
+          simpa [projV, hm] using this
+      | false =>
+        simp only [Bool.false_eq_true, if_false]
+        cases hg : fs.get p with
+        | none => rfl
+        | some fc =>
+          cases fc with
+          | ext defs => simp [projV, visitEvent]
+          | idl t => rfl
+          | badExt => rfl
+          | notText pos => rfl
+
+theorem projV_foldl (cfg : Cfg) (fs : FS) (recV : List APath → APath → APath → VisitAcc → VisitAcc)
+    (recL : APath → APath → OrderAcc → OrderAcc) (stack : List APath) (file spelled : APath) (text : String)
+    (hfile : fs.get file = some (.idl text)) (hself : SelfOk fs spelled file)
+    (hmono : ∀ st p s a, ∀ q ∈ a.1, q ∈ (recV st p s a).1)
+    (hrec : ∀ p s a, SelfOk fs s p → p ∈ a.1 → projV (recV stack p s a) = recL p s (projV a))
+    (loads : List LoadAt) (acc : VisitAcc) (hin : file ∈ acc.1) :
+    projV (loads.foldl (visitStep cfg fs recV stack spelled) acc) = loads.foldl (loadStep cfg fs recL spelled) (projV acc) := by
+  induction loads generalizing acc with
+  | nil => rfl
+  | cons l ls ih =>
+    simp only [List.foldl_cons]
+    rw [ih _ (visitStep_mono cfg fs recV hmono stack spelled acc l file hin),
+      projV_step cfg fs recV recL stack file spelled text hfile hself hrec acc hin l]
+
+/-- forgetting spellings, importers and the visits that register nothing, `visitOrder` is `loadOrder` -/
+theorem projV_visitOrder (cfg : Cfg) (fs : FS) (fuel : Nat) (stack : List APath) (file spelled : APath) (acc : VisitAcc)
+    (hself : SelfOk fs spelled file) (hin : file ∈ acc.1) :
+    projV (visitOrder cfg fs fuel stack file spelled acc) = loadOrder cfg fs fuel file spelled (projV acc) := by
+  induction fuel generalizing stack file spelled acc with
+  | zero => simp [visitOrder, loadOrder, projV, visitEvent]
+  | succ n ih =>
+    simp only [visitOrder, loadOrder]
+    cases hf : fs.get file with
+    | none => simp [projV, visitEvent]
+    | some fc =>
+      cases fc with
+      | idl text =>
+        simp only []
+        cases hp : parseText text with
+        | none => simp [projV, visitEvent]
+        | some f =>
+          simp only []
+          have := projV_foldl cfg fs (visitOrder cfg fs n) (loadOrder cfg fs n) (stack ++ [file]) file spelled text hf hself
+            (fun st p s a => visitOrder_mono cfg fs n st p s a) (fun p s a hs hi => ih (stack ++ [file]) p s a hs hi) f.loads acc hin
+          rw [← this]
+          simp [projV, visitEvent]
+      | ext d => simp [projV, visitEvent]
+      | badExt => simp [projV, visitEvent]
+      | notText pos => simp [projV, visitEvent]
+
+/-- **The visits are the registration events**: forgetting the extra detail, `rootVisits` is `rootEvents` of
+    `Front/Order.lean` — the order `Props/C16Order.lean` proves the model registers in. -/
+theorem rootVisits_events (cfg : Cfg) (fs : FS) (root : APath) :
+    (rootVisits cfg fs root).filterMap visitEvent = rootEvents cfg fs root := by
+  have := projV_visitOrder cfg fs (fs.files.length + 2) [] (normPath root) root ([normPath root], [])
+    (SelfOk.root fs root) (by simp)
+  exact congrArg Prod.snd this
+
+theorem file?_eq_visitEvent (v : Visit) : v.file? = (visitEvent v).bind LoadEvent.file? := by
+  cases v <;> rfl
+
+/-- the IDL files visited are, in order, the finish order `rootOrder` -/
+theorem rootVisits_files (cfg : Cfg) (fs : FS) (root : APath) :
+    (rootVisits cfg fs root).filterMap Visit.file? = rootOrder cfg fs root := by
+  rw [← rootEvents_files, ← rootVisits_events, List.filterMap_filterMap]
+  congr 1
+  funext v
+  exact file?_eq_visitEvent v
+
 instance (cfg : Cfg) (v : Visit) : Decidable (VisitOk cfg v) := by
   cases v <;> unfold VisitOk <;> infer_instance
 
